@@ -56,7 +56,12 @@ func judgePrecision(c *engine.Chooser, area, key string, bits float64, sigOverri
 		// defect itself, so it must not be calibrated in. The bound is the fixed floor below which the output simply is
 		// not the input message any more; every working configuration of this check has more than 11 bits.
 		c.Cover("calibration", "known-defect-class")
-		if bits < uninformativeBits {
+		floor := uninformativeBits
+		if sigOverride[0] == sigMultiMatrixLevel {
+			// {30},{30,30}-style splits leave ~10 bits even when they work (30-bit matrix scales): garbage is <= 0 bits
+			floor = 4
+		}
+		if bits < floor {
 			c.Fail(sigOverride[0], "%s: worst-slot precision %.2f bits: the bootstrapped ciphertext does not carry the input message", id, bits)
 		}
 		return
